@@ -224,7 +224,11 @@ def rule_attr_validation_reach(ctx):
                 if A.kind(c["func"]) != "Expr::Path" or A.path_str(c["func"]).split("::")[-1] != "get_meta_info":
                     continue
                 n += 1
-                cond = GF.canon_text(RJ.site_formula(fn, c, ps))
+                fm = RJ.site_formula(fn, c, ps)
+                cond = GF.canon_text(fm)
+                # one atom 'the iteration yields an element', whatever expression builds the iterated collection
+                if isinstance(fm, tuple) and fm and fm[0] == "is" and len(fm) == 3 and fm[2] == "Some" and re.search(r"\.iter\(\)(\.map\(\|\$\|&?\$\.attrs\))?$", str(fm[1])):
+                    cond = "true"
                 ctx.instance(f"attr-reach:{rel}::{fn.qual}#{n}", sample={"site": f"{rel}::{fn.qual}", "reach condition": cond})
                 if cond == "true" or (re.fullmatch(r"\$(\.\w+)*\.iter\(\)(\.map\(\|\$\|&?\$\.attrs\))? ~ Some", cond)):
                     continue
